@@ -266,9 +266,13 @@ pub struct TagSpec {
     pub pos: PosSel,
     pub key: u8,
     pub val: TVal,
+    /// offered with a position in the filled but *uncommitted* part of the window (pos >= n):
+    /// such a tag belongs to a later commit and must not be stored by this one
+    #[serde(default)]
+    pub beyond: bool,
 }
 pub fn tagspec_strategy() -> impl Strategy<Value = TagSpec> {
-    (possel_strategy(), 0u8..3, tval_strategy()).prop_map(|(pos, key, val)| TagSpec { pos, key, val })
+    (possel_strategy(), 0u8..3, tval_strategy(), prop::bool::weighted(0.2)).prop_map(|(pos, key, val, beyond)| TagSpec { pos, key, val, beyond })
 }
 pub fn key_name(k: u8) -> &'static str {
     ["ka", "kb", "kc", "kd"][(k & 3) as usize]
@@ -587,8 +591,15 @@ fn run_t<T: Elem>(pid: &str, case: &RingCase, focus: Focus, ctx: &mut Ctx) {
                     let mut tv = Vec::new();
                     if n > 0 {
                         for t in tags {
-                            let pos = t.pos.resolve(n, to_wrap);
                             let val = t.val.to_tag_value();
+                            if t.beyond && k > n {
+                                // in the filled part behind the commit: offered, not stored
+                                let pos = n + t.pos.resolve(k - n, to_wrap.saturating_sub(n));
+                                tv.push(Tag::new(pos, key_name(t.key), val));
+                                ctx.class("tag-offered-beyond-the-commit");
+                                continue;
+                            }
+                            let pos = t.pos.resolve(n, to_wrap);
                             tv.push(Tag::new(pos, key_name(t.key), val.clone()));
                             per[pos].push((key_name(t.key).to_string(), val));
                         }
